@@ -57,6 +57,11 @@ CHECKS = {
             "Every object class (incl. survey classes), group class, data kind and a drillhole group is copied to the same parent, another parent and a second workspace with every copy_children/clear_cache combination (grid enumerated completely each run), followed by generated edits of the copy and a re-open of both files.",
             "Equality is judged on the public-getter snapshot (apisnap); shared memory between arrays is reported as a counter, the observable consequence is tested through read-modify-assign edits of the copy.",
             "DESIGN.md 3/C12"),
+    "C10": ("readonly", "exploration",
+            "differential stateful PBT: generated call programs against a read-only workspace and a writable twin of the same file; byte hash + handle-mode invariants, must-raise decided by the twin's digest change",
+            "A generated file is opened read-only and a generated program of getters, setters, creations, removals, copies, property-group edits and helper calls (ui.json loading, monitoring export, fetch_active_workspace, path2workspace) is applied; after every call the SHA-256 of the file and the handle mode must be unchanged, and every call that changes a writable twin must have raised on the read-only side.",
+            "An explicit open(mode='r+') by the user is outside the domain; the in-memory state after a refused write is not constrained.",
+            "DESIGN.md 3/C10"),
 }
 
 NOT_APPLICABLE = {}
@@ -101,6 +106,8 @@ def main():
         "engines": [
             {"name": "tree", "path": "vp/engines/tree.py", "serves_properties": ["C01", "C02", "C05", "C06", "C09", "C12"],
              "kind_free_text": "Hypothesis strategy for operation programs + interpreter with reference model over groups/objects/data/property groups"},
+            {"name": "readonly", "path": "vp/props/c10.py", "serves_properties": ["C10"],
+             "kind_free_text": "tree-built file + twin, call interpreter for read-only vs writable"},
             {"name": "copygrid", "path": "vp/props/c12.py", "serves_properties": ["C12"],
              "kind_free_text": "subject builders for every class + copy/edit/re-open oracle"},
             {"name": "concat", "path": "vp/engines/concat.py", "serves_properties": ["C04"],
